@@ -351,6 +351,22 @@ Section HistR.
   Qed.
 End HistR.
 
+(* ------------------------------------------------------------------ gathered vector variables *)
+Lemma nth_tl {A} (l : list A) i d : nth i (tl l) d = nth (S i) l d.
+Proof. destruct l; [destruct i; reflexivity | reflexivity]. Qed.
+
+Lemma gather_spec (weights : list R) : forall (vars : list (list R)) iv, (iv < length weights)%nat ->
+  nth iv (gather Rops vars weights) ([], 0%R) = (map (fun v => nth iv v 0%R) vars, nth iv weights 0%R).
+Proof.
+  induction weights as [|w ws IH]; intros vars iv H; [cbn in H; lia|].
+  cbn [gather]. destruct iv as [|iv].
+  - cbn [nth]. f_equal. apply map_ext. intros v. destruct v; reflexivity.
+  - cbn [nth length] in *. rewrite IH by lia. f_equal. rewrite map_map. apply map_ext. intros v. apply nth_tl.
+Qed.
+
+Lemma gather_length (weights : list R) : forall vars, length (gather Rops vars weights) = length weights.
+Proof. induction weights as [|w ws IH]; intros vars; cbn [gather length]; auto. Qed.
+
 (* ------------------------------------------------------------------ re-mapping (read_multicol) *)
 Section RemapR.
   Local Open Scope R_scope.
@@ -459,3 +475,16 @@ Section RemapR.
     - apply IH; auto. rewrite remap_record_length. exact Hlen.
   Qed.
 End RemapR.
+
+(* statement used in Properties_C15.v: the histogram of gathered vector variables *)
+Lemma gathered_vector_histogram (c : hist_cfg (T := R)) (weights : list R)
+      (steps : list (Z * bool * list (list R))) (a : nat) :
+  all_pos (h_nx c) ->
+  let h := map (fun st => mkHistIn (fst (fst st)) (snd (fst st)) (gather Rops (snd st) weights)) steps in
+  (forall vars iv, (iv < length weights)%nat ->
+     nth iv (gather Rops vars weights) ([], 0%R) = (map (fun v => nth iv v 0%R) vars, nth iv weights 0%R)) /\
+  nth a (hist_run Rops true c h) 0%R = lsum (map (weight_at c a) (eligible_samples c true h)) /\
+  lsum (hist_run Rops true c h) = lsum (map (weight_in c) (eligible_samples c true h)).
+Proof.
+  intros Hp h. split; [intros vars iv; apply gather_spec|]. split; [apply hist_run_nth | apply hist_total]; auto.
+Qed.
